@@ -5,7 +5,22 @@
     again before each BMCA run (so that its newest Announce is its candidate). *)
 From SV Require Export Port.BmcaSpec Port.OracleBase.
 
-Record cand := mkCand { cd_src : port_identity; cd_h : header; cd_a : announce_body; cd_fresh : Z }.
+(** [cd_travel]: how far the sequence id of this master has moved, in total,
+    over the Announces counted so far *)
+Record cand := mkCand { cd_src : port_identity; cd_h : header; cd_a : announce_body; cd_fresh : Z; cd_travel : Z }.
+
+(** the Announce closes a path-trace loop (or overflows the path) while the port
+    is slave of its sender: it is dropped before it reaches the foreign-master
+    list (Clause 16.2, property C15) *)
+Definition loop_drop (prev : snapshot) (p : nat) (m : message) : bool :=
+  (state_of prev p =? 9) && pi_eqb (h_source (m_header m)) (pd_parent (ds_parent (sn_ds prev)))
+  && ds_path_enable (sn_ds prev)
+  && match find_tlv 8 (tlvs_of (m_suffix m)) with
+     | Some t => let path := path_of_value (tlv_value t) in
+                 (PATH_CAPACITY <? length path)%nat
+                 || existsb (fun ci => ci =? dd_clock_identity (ds_default (sn_ds prev))) path
+     | None => false
+     end.
 
 (** a valid foreign Announce on port p (as in C06) *)
 Definition cand_of (c : pcase) (prev : snapshot) (p : nat) (frame : bytes) : option cand :=
@@ -21,7 +36,8 @@ Definition cand_of (c : pcase) (prev : snapshot) (p : nat) (frame : bytes) : opt
              && negb (pi_clock (h_source h) =? own_clock c)
              && acceptable acc (pi_clock (h_source h))
              && (an_steps_removed a <? 255)
-          then Some (mkCand (h_source h) h a 1) else None
+             && negb (loop_drop prev p m)
+          then Some (mkCand (h_source h) h a 1 0) else None
       | _ => None
       end
   | None => None
@@ -31,7 +47,8 @@ Fixpoint upsert (x : cand) (l : list cand) : list cand :=
   match l with
   | [] => [x]
   | y :: l' => if pi_eqb (cd_src y) (cd_src x)
-               then mkCand (cd_src x) (cd_h x) (cd_a x) (cd_fresh y + 1) :: l'
+               then mkCand (cd_src x) (cd_h x) (cd_a x) (cd_fresh y + 1)
+                           (cd_travel y + (h_seq (cd_h x) - h_seq (cd_h y)) mod 65536) :: l'
                else y :: upsert x l'
   end.
 
@@ -44,7 +61,11 @@ Definition spec_best (p : port_identity) (l : list cand) : option cand :=
 
 (** [evaluable] = false once something with a lasting effect outside the
     oracle's bookkeeping happened (own-identity Announce: multiport rule; stale
-    sequence id: the record is rejected) *)
+    sequence id: the record is rejected).  The library compares a sequence id
+    with the newest record it still HOLDS of that master, which is an older one
+    once BMCA runs have consumed the newest; the oracle therefore requires the
+    ids of one master to have moved by less than 2^15 in total ([cd_travel]),
+    which makes the two tests agree on every history *)
 Record st05 := mkS5 { cands : list (list cand); evaluable : bool }.
 
 Definition own_announce (c : pcase) (frame : bytes) : bool :=
@@ -59,7 +80,7 @@ Definition own_announce (c : pcase) (frame : bytes) : bool :=
 
 Definition seq_fresh (x : cand) (l : list cand) : bool :=
   match find (fun y => pi_eqb (cd_src y) (cd_src x)) l with
-  | Some y => (h_seq (cd_h x) - h_seq (cd_h y)) mod 65536 <? 32767
+  | Some y => cd_travel y + (h_seq (cd_h x) - h_seq (cd_h y)) mod 65536 <? 32767
   | None => true
   end.
 
@@ -82,7 +103,7 @@ Definition step_C05 (c : pcase) (s : st05) (prev : snapshot) (e : event) (o : li
       let ds := sn_ds prev in
       let dd := ds_default ds in
       let fresh_ok := forallb (fun l => forallb (fun x => 2 <=? cd_fresh x) l && (length l <=? 8)%nat) (cands s) in
-      let reset := mkS5 (map (map (fun x => mkCand (cd_src x) (cd_h x) (cd_a x) 0)) (cands s)) (evaluable s) in
+      let reset := mkS5 (map (map (fun x => mkCand (cd_src x) (cd_h x) (cd_a x) 0 (cd_travel x))) (cands s)) (evaluable s) in
       if negb (evaluable s && fresh_ok) then Some reset
       else
         let erb (p : nat) := spec_best (port_id c p) (nth p (cands s) []) in
